@@ -44,7 +44,12 @@ Definition truth_ok (c : tcase) (f : N) (es : list ev) : bool :=
        | Some (Some fn), Some fn' => N.eqb fn fn'        (* resolved to the function whose code ran *)
        | _, _ => true end)
       && (match lookup f (tc_entries c) with
-          | Some ent => args_eqb args ent || negb (taken (tc_rate c) es)
+          | Some ent =>
+              (* every logged (name, type) is the type of the value bound to that name at entry; *args / **kwargs are
+                 bound names the tracer never looks at (co_varnames[:argcount+kwonly]), so the entry may have more *)
+              forallb (fun a => match find (fun e => String.eqb (fst e) (fst a)) ent with
+                                | Some e => corrb (snd a) (snd e) | None => false end) args
+              || negb (taken (tc_rate c) es)
           | None => true end)
   | None => true
   end.
